@@ -1974,7 +1974,9 @@ def normalise_module(modname, tree):
              for x in ast.walk(fn)):
         from .model import _Unroll
         ref_iters = {it for it, _ in inv[q].get('loops') or []}
-        new_fn = _Unroll(ref_iters).visit(fn)
+        ref_targets = {tg for it, tg in inv[q].get('loops') or []
+                       if it[:1] in '[('}
+        new_fn = _Unroll(ref_iters, ref_targets).visit(fn)
         ast.fix_missing_locations(fn)
       if inv[q].get('returns'):
         name_returns(fn, inv[q]['returns'])
